@@ -58,7 +58,7 @@ FPs == { FP(p, sl, l, inl) : p \in { <<i>> : i \in 1..Len(PatPool) } \cup { <<1,
 Init ==
   \/ \E pat \in SeqsUpTo(PatTok, PatLen) :
        case = [k |-> "glob", pat |-> pat, m |-> { p \in Paths : Match(pat, p) }]
-  \/ \E a \in FPs, b \in FPs, sl \in { <<>>, <<1>>, <<2, 1>>, <<1, 1>> } :
+  \/ \E a \in FPs, b \in FPs, sl \in { <<>>, <<1>>, <<2, 1>>, <<1, 1>>, <<3, 1>>, <<3>> } :   \* (name 3 differs from name 1 by case only)
        LET fps == <<a, b>> IN
        case = [k |-> "doc", fps |-> fps, sl |-> sl,
                ff |-> [i \in 1..Len(DocPaths) |-> FindFiles(fps, DocPaths[i])],
